@@ -227,7 +227,10 @@ func surnameStartsWith(individual *gedcom.IndividualNode, letter rune) bool {
 
 func individualForNode(doc *gedcom.Document, node gedcom.Node) *gedcom.IndividualNode {
 	for _, individual := range doc.Individuals() {
-		if gedcom.HasNestedNode(individual, node) {
+		// The node can be the individual itself (a PLAC directly below the
+		// individual describes the individual).
+		if gedcom.Node(individual) == node ||
+			gedcom.HasNestedNode(individual, node) {
 			return individual
 		}
 	}
